@@ -390,6 +390,8 @@ pub struct DTx {
     pub mint_policies: Vec<Vec<u8>>,
     pub withdrawals: Option<Vec<(Vec<u8>, BigInt)>>,
     pub certificates: Option<Vec<Node>>,
+    /// the encoded certificates as they stand in the payload, in order
+    pub certificate_bytes: Vec<Vec<u8>>,
     pub aux_hash: Option<Vec<u8>>,
     pub script_data_hash: Option<Vec<u8>>,
     pub collateral: Option<Vec<(Vec<u8>, u64)>>,
@@ -599,6 +601,7 @@ pub fn conway(payload: &[u8]) -> Result<DTx, DecErr> {
                     tx.remarks.push("certificates: empty set".into());
                 }
                 dup_check(&c.iter().map(|n| n.span(payload).to_vec()).collect::<Vec<_>>(), "certificates", &mut tx.remarks);
+                tx.certificate_bytes = c.iter().map(|n| n.span(payload).to_vec()).collect();
                 tx.certificates = Some(c);
             }
             5 => {
